@@ -137,6 +137,24 @@ def check_shape(t, shape, style_names=None, iter_names=None, text=True):
                                     later_sibling = any(dec[j][0] == p for j in range(k + 1, len(dec)))
                                     if last == later_sibling:
                                         why = "end/continue branch of node %s contradicts its position" % v
+                    if why is None and len(exp) > 1 and sname in ("ascii", "w3"):
+                        # one RenderTree object: an abandoned iteration (at every depth), then a complete one; two
+                        # simultaneous iterations of the same object
+                        for k in range(1, len(exp)):
+                            it = iter(rt)
+                            for _ in range(k):
+                                next(it)
+                            del it
+                            again = [(r.pre, r.fill, idm(r.node)) for r in rt]
+                            t.c["render_reuse_checks"] += 1
+                            if again != exp:
+                                why = "rows differ when the RenderTree object is iterated again after an iteration abandoned at row %d" % k
+                                got = again
+                                break
+                        if why is None:
+                            both = [((a.pre, a.fill, idm(a.node)), (b.pre, b.fill, idm(b.node))) for a, b in zip(rt, rt)]
+                            if [x for x, _ in both] != exp or [y for _, y in both] != exp:
+                                why = "two simultaneous iterations of one RenderTree object disturb each other"
                     if why:
                         t.violation("C09: " + why, {"engine": "E2", "module": MOD, "part": "rows", "shape": shape, "start": start,
                                                     "style": sname, "childiter": iname, "maxlevel": ml,
@@ -184,6 +202,9 @@ def check_shape(t, shape, style_names=None, iter_names=None, text=True):
 
                 def __repr__(self):
                     return self.rep
+
+                def __str__(self):  # str(RenderTree) prints the repr of the nodes, not their str()
+                    return "str-of-node"
 
             rn = [RepNode(reps[(i + rot + start) % len(reps)]) for i in range(m.n)]
             for i in range(m.n):
@@ -282,11 +303,12 @@ def run(tier):
         "evaluations": t.c["evaluations"], "distinct_nontrivial": t.c["nontrivial"],
         "rule": "all ordered trees up to %d nodes x start x 7 styles (4 built-in, class form, custom width 1 and 3) x 6 "
                 "childiters x maxlevel in {None,-1,0,1..height+1}: rows vs. reference rows and shape re-decoded from the "
-                "prefixes; by_attr()/str() line layout with single-, multi-line, empty, list, tuple, int and missing "
+                "prefixes; re-iteration of one RenderTree object after an abandoned iteration and two simultaneous iterations; "
+                "by_attr()/str() line layout with single-, multi-line, empty, list, tuple, int and missing "
                 "values; Node/AnyNode/SymlinkNode reprs for 3 separators x 6 attribute sets; non-trivial = more than one "
                 "row / at least one public attribute" % nmax,
         "bounds": {"max_nodes": nmax, "shapes": len(shapes)},
     }
     return {"tally": t, "coverage": cov,
-            "guards": ("nontrivial", "childiter_changes_rows", "maxlevel_cuts", "text_renderings", "reprs"),
+            "guards": ("nontrivial", "childiter_changes_rows", "maxlevel_cuts", "text_renderings", "reprs", "render_reuse_checks"),
             "assumptions": ["bounded tree size; styles of equal segment width (as the statement requires)"]}
